@@ -146,3 +146,55 @@ contract(ENT + '._parse_response[AuthnResponse]', variant_of=ENT + '._parse_resp
          clauses_from={'C02': ['C02-response-signature-required', 'C02-assertion-signatures-required', 'C02-either-or',
                                'C02-present-response-signature-verified', 'C02-present-assertion-signatures-verified',
                                'C02-flags-restored']})
+
+
+# ================================================================================================ C10: Entity._parse_request
+ghost('cfg_attr', ['Val', 'Val', 'Val'], 'Val')         # Config.getattr(attr, context): the configured option value
+ghost('unravelled', ['Val', 'Val', 'Val'], 'Val')       # Entity.unravel(txt, binding, msgtype): the transport-decoded text
+contract('saml2_tophat.config:Config.getattr', pure=True, trusted=True, params=['self', 'attr', 'context'], defaults={'context': None},
+         returns='Any', ensures=['result == cfg_attr(self, attr, context)'],
+         note='ASSUMED: attribute lookup by computed name (reflection)')
+contract('saml2_tophat.request:Request.__init__', inline=True)
+contract('saml2_tophat.request:Request.loads', inline=True)
+_req_variants = {}
+for _cls in ['AuthnRequest', 'LogoutRequest', 'AttributeQuery', 'AuthnQuery', 'AuthzDecisionQuery', 'NameIDMappingRequest',
+             'ManageNameIDRequest', 'AssertionIDRequest']:
+    _cq = 'saml2_tophat.request:' + _cls
+    contract(_cq + '.__init__', inline=True)
+    _vq = ENT + '._parse_request[%s]' % _cls
+    _req_variants[('request_cls', _cq)] = _vq
+    _RQ = 'as_type(result, "Inst(\'%s\')")' % _cq
+    _WANT = ("(truthy(cfg_attr(self.config, 'want_authn_requests_signed', 'idp')) or "
+             "truthy(cfg_attr(self.config, 'want_authn_requests_only_with_valid_cert', 'idp')))")
+    contract(_vq, variant_of=ENT + '._parse_request',
+             types={'enc_request': 'Any', 'request_cls': "Cls('%s')" % _cq, 'service': 'Str', 'binding': 'Opt(Str)'},
+             returns="Opt(Inst('%s'))" % _cq, merge_exits='raises',
+             # the two options are configuration booleans (or unset)
+             requires=["class_is(request_cls, %r)" % _cq,
+                       "typed(cfg_attr(self.config, 'want_authn_requests_signed', 'idp'), 'Opt(Bool)')",
+                       "typed(cfg_attr(self.config, 'want_authn_requests_only_with_valid_cert', 'idp'), 'Opt(Bool)')"],
+             ensures=[
+                 # C10: what is handed to the application parsed as the expected type and passed schema validation ...
+                 ('C10-parsed-and-valid', 'implies(result is not None, %s.message is not None and schema_valid(%s.message))' % (_RQ, _RQ)),
+                 # ... is signed when the receiver wants signed requests, whatever the binding ...
+                 ('C10-unsigned-refused-when-signatures-wanted',
+                  'implies(result is not None and %s, truthy(%s.message.signature))' % (_WANT, _RQ)),
+                 # ... a signature that is present verified under the issuer's key over the request element itself ...
+                 ('C10-present-signature-verified',
+                  'implies(result is not None and truthy(%s.message.signature) and truthy(%s.message.id), '
+                  'SIG_OK(self.sec, %s.xmlstr, %s.message, cname(%s.message), None))' % (_RQ, _RQ, _RQ, _RQ, _RQ)),
+                 # ... Destination absent or one of the receiver's endpoints (when it has any: known finding otherwise), fresh IssueInstant
+                 ('C10-destination-when-endpoints',
+                  'implies(result is not None and truthy(%s.receiver_addrs), not truthy(%s.message.destination) or '
+                  '%s.message.destination in %s.receiver_addrs)' % (_RQ, _RQ, _RQ, _RQ)),
+                 ('C10-issue-instant',
+                  'implies(result is not None, epoch(%s.message.issue_instant) - NOW <= 86400 + %s.timeslack and '
+                  'NOW - epoch(%s.message.issue_instant) <= 86400 + %s.timeslack)' % (_RQ, _RQ, _RQ, _RQ)),
+                 ('C06-version', "implies(result is not None, %s.message.version == '2.0')" % _RQ)],
+             raises={'Exception': 'True'},
+             modifies=['*.xmlstr', '*.message', '*.sec', '*.receiver_addrs', '*.timeslack', '*.name_id', '*.not_on_or_after',
+                       '*.attribute_converters', '*.binding', '*.relay_state', '*.signature_check'],
+             loops={0: {'inv': [], 'modifies': []}},
+             clauses_from={'C10': ['C10-parsed-and-valid', 'C10-unsigned-refused-when-signatures-wanted', 'C10-present-signature-verified',
+                                   'C10-destination-when-endpoints', 'C10-issue-instant'], 'C06': ['C06-version']})
+contract(ENT + '._parse_request', trusted=True, variants=_req_variants, note='dispatch stub for the constant request-class variants')
